@@ -2,6 +2,7 @@ package peersync
 
 import (
 	"context"
+	"errors"
 	"fmt"
 	"log"
 	"sync"
@@ -162,8 +163,14 @@ func (p *poller) pollPeers(ctx context.Context, force bool) {
 			continue
 		}
 
-		peer.MarkAsPolled()
-		if err := p.store.SavePeerState(peer); err != nil {
+		// The send can take a while and the peer's own poll may have been
+		// stored meanwhile: mark the stored state, not the copy loaded before
+		// the send.
+		err := p.store.UpdatePeerState(peer.ID(), false, func(stored *Peer) error {
+			stored.MarkAsPolled()
+			return nil
+		})
+		if err != nil && !errors.Is(err, ErrPeerNotFound) {
 			log.Printf("failed to persist peer state for %s: %v", peer.ID().String(), err)
 		}
 	}
